@@ -36,6 +36,10 @@ def vector_tt(rng):
         ranks = [1] + [int(rng.integers(2, 6)) for _ in range(d - 1)] + [1]
         kind = 'overparam'
         cores = gen.rand_cores(rng, rows, [1] * d, ranks, cplx)
+    sc = gen.rand_scale(rng)
+    if sc != 1.0:
+        gen.apply_scale(cores, rng, sc)
+        kind += '_scaled'
     return tt.TT(cores), kind
 
 
@@ -66,6 +70,7 @@ def w_pinv(ctx, rng, idx):
     for index in range(1, d):
         call('TT.pinv', lambda: t.pinv(index), prop=P)
         call('TT.pinv', lambda: t.pinv(index, threshold=1e-10), prop=P)
+        call('TT.pinv', lambda: t.pinv(index, threshold=float(10 ** rng.uniform(-12, -6))), prop=P)
     index = int(rng.integers(1, d))
     u = clone(t)
     call('TT.pinv', lambda: u.pinv(index, threshold=1e-10, overwrite=True), prop=P)
